@@ -8,6 +8,7 @@ import (
 	"unicode/utf8"
 
 	"golang.org/x/text/unicode/norm"
+	"golang.org/x/text/width"
 	"verifkit/prng"
 )
 
@@ -122,6 +123,65 @@ func spell(p *prng.R, canon, kind string) (string, string) {
 	return s, kind
 }
 
+// ---- documented auth_map_normalize functions (reference) ----
+//
+// docs/reference/global-config.md:
+//   auto                   precis_casefold_email for valid emails, precis_casefold otherwise
+//   precis_casefold_email  PRECIS UsernameCaseMapped profile + U-labels form for domain
+//   precis_casefold        PRECIS UsernameCaseMapped profile for the entire string
+//   precis_email           PRECIS UsernameCasePreserved profile + U-labels form for domain
+//   precis                 PRECIS UsernameCasePreserved profile for the entire string
+//   casefold               Convert to lower case
+//   noop                   Nothing
+// RFC 8265: both profiles map fullwidth/halfwidth characters to their
+// decomposition and apply NFC; only the CaseMapped one lower-cases. The
+// reference below re-implements that with x/text width/norm and
+// strings.ToLower on the harness' own alphabet - never with maddy code.
+
+func foldWidthNFC(s string) string { return norm.NFC.String(width.Fold.String(s)) }
+
+// foldAll is UsernameCaseMapped on the harness alphabet (what the credentials
+// store applies to the name it is given).
+func foldAll(s string) string {
+	return norm.NFC.String(strings.ToLower(foldWidthNFC(s)))
+}
+
+// docNormalize returns the documented normal form of a spelled login name;
+// ok=false when the function is documented for e-mail addresses only and the
+// name is none.
+func docNormalize(fn, s string) (string, bool) {
+	i := strings.LastIndexByte(s, '@')
+	email := i > 0 && i < len(s)-1
+	if fn == "auto" {
+		if email {
+			fn = "precis_casefold_email"
+		} else {
+			fn = "precis_casefold"
+		}
+	}
+	switch fn {
+	case "precis_casefold_email":
+		if !email {
+			return "", false
+		}
+		return foldAll(s[:i]) + "@" + strings.ToLower(s[i+1:]), true // domains here are ASCII
+	case "precis_casefold":
+		return foldAll(s), true
+	case "precis_email":
+		if !email {
+			return "", false
+		}
+		return foldWidthNFC(s[:i]) + "@" + strings.ToLower(s[i+1:]), true
+	case "precis":
+		return foldWidthNFC(s), true
+	case "casefold":
+		return strings.ToLower(s), true
+	case "noop":
+		return s, true
+	}
+	return "", false
+}
+
 // ---- passwords ----
 
 var (
@@ -147,6 +207,21 @@ var passwordPool = []string{
 	pw72[:69] + "😀",                 // 73 bytes, straddling
 	strings.Repeat("é", 72),         // 72 characters, 144 bytes
 	strings.Repeat("aé", 36) + "b",  // 109 bytes, 73 characters
+	// byte strings that change under NFC / NFKC / PRECIS OpaqueString /
+	// case folding. Only ONE member of each equivalence class is in the pool:
+	// supplying exactly these bytes must succeed; whether another
+	// normalisation form of the same text may also succeed is not judged.
+	"pa\u0301ss",                   // decomposed (NFD) a + combining acute
+	"q\u0323\u0307x",               // two combining marks
+	"d\u0307\u0323y",               // two combining marks in non-canonical order
+	"p\u00a0w",                     // NO-BREAK SPACE
+	"p\u2003w\u3000z",              // EM SPACE, IDEOGRAPHIC SPACE
+	"\ufb01n-\u212bng",             // ligature fi, ANGSTROM SIGN
+	"\u1112\u1161\u11ab-jamo",      // Hangul conjoining jamo (NFC composes them)
+	"\uff50\uff57-wide",            // fullwidth letters
+	"Stra\u00dfe-\u0130-\u017f",     // sharp s, dotted capital I, long s
+	"\u2126hm \u00b5m",             // OHM SIGN, MICRO SIGN (compatibility / singleton mappings)
+	"tab\there",                    // control character
 }
 
 // Boundary family: passwords whose BYTE length is 70..74 or 140..146, built
@@ -154,8 +229,8 @@ var passwordPool = []string{
 // straddling byte 72 (bcrypt's input limit is 72 bytes, not characters).
 var widthChars = [5][]string{
 	1: {"a", "Z", "7", "-", "q"},
-	2: {"é", "ж", "ω", "ü"},
-	3: {"密", "€", "ア", "ह"},
+	2: {"é", "ж", "ω", "ü", "\u0301", "\u00a0"},
+	3: {"密", "€", "ア", "ह", "\u2003", "\u212b", "\ufb01"},
 	4: {"😀", "𝄞", "𐍈"},
 }
 
@@ -207,7 +282,19 @@ func genPassword(p *prng.R, bcryptScheme bool) string {
 	if bcryptScheme && p.Chance(4, 5) {
 		return boundaryPassword(p, 72)
 	}
-	return boundaryPassword(p, 0)
+	pw := boundaryPassword(p, 0)
+	if !bcryptScheme && p.Bool() {
+		for len(pw) <= 72 { // schemes without a length limit: mostly beyond 72 bytes
+			pw = boundaryPassword(p, 0)
+		}
+	}
+	return pw
+}
+
+// unstable says whether a password's byte string changes under NFC or NFKC
+// (decomposed sequences, compatibility characters, non-ASCII spaces ...).
+func unstable(pw string) bool {
+	return utf8.ValidString(pw) && (norm.NFC.String(pw) != pw || norm.NFKC.String(pw) != pw)
 }
 
 func runeLen(s string) int { return utf8.RuneCountInString(s) }
@@ -335,6 +422,15 @@ func relation(supplied, current string, stale, others []string) string {
 		return "first-72-characters-of-current"
 	case len(supplied) > 72 && len(current) > 72 && supplied[:72] == current[:72]:
 		return "same-first-72-bytes"
+	}
+	for _, s := range stale { // an earlier password of this account, whatever else it resembles
+		if s == supplied {
+			return "stale-password"
+		}
+	}
+	switch {
+	case norm.NFC.String(supplied) == norm.NFC.String(current) || norm.NFKC.String(supplied) == norm.NFKC.String(current):
+		return "other-unicode-normalization-form-of-current" // not generated on purpose; would be contested
 	case len(supplied) > len(current) && strings.HasPrefix(supplied, current):
 		return "extension-of-current"
 	case len(supplied) < len(current) && strings.HasPrefix(current, supplied):
